@@ -46,7 +46,40 @@ def run(ctx):
         run_cfg(ctx, ctx.prog(cfg), cfg)
 
 
+def rule_console_stream_exclusive(ctx, p, cfg, rid="J7"):
+    """sink-side premise of "one record, one line" on a console shared by several threads: the encoder writes a record in many
+    small pieces, so the console appender holds the stream's own lock from the first piece to the flush - for stdout and for
+    stderr alike"""
+    with ctx.rule(rid, "a console record is written under the stream's lock", cfg) as r:
+        fs = [f for path, f in p.fns.items() if path == "priv_io::StdWriter::lock"]
+        if not fs:
+            r.ok("no-console-in-this-configuration", detail="priv_io is not compiled in this configuration (no console appender)")
+            return
+        if len(fs) != 1:
+            raise AnchorMissing("priv_io::StdWriter::lock not found")
+        f = fs[0]
+        e = deep_strip(f.local_expr(0))
+        alts = [deep_strip(a) for a in (e[1] if e[0] == "phi" else (e,))]
+        want = {"Stdout": "std::io::stdio::Stdout::lock", "Stderr": "std::io::stdio::Stderr::lock"}
+        got = {}
+        for a in alts:
+            if a[0] == "agg" and a[2] in want:
+                v = deep_strip(dict(a[3]).get("0", ("?",)))
+                got[a[2]] = v[1] if v[0] == "call" else show(v, 3)
+        for var, fn_ in sorted(want.items()):
+            r.require(got.get(var) == fn_, "lock-held:%s" % var, fn=f, detail="StdWriterLock::%s holds %s" % (var, got.get(var)),
+                      fail_detail="StdWriter::lock() hands out the %s stream without locking it (%s): records written concurrently interleave piece by piece" % (var.lower(), got.get(var)))
+        if "console_appender" in p.meta.get("features", []):
+            ap = p.fn("<append::console::ConsoleAppender as append::Append>::append")
+            lk = [c for c in ap.calls() if (c.callee or "").endswith("::lock")]
+            en = [c for c in ap.calls() if (c.callee or "") == "encode::Encode::encode"]
+            fl = [c for c in ap.calls() if (c.callee or "").endswith("Write::flush")]
+            r.require(len(lk) == 1 and bool(en) and all(ap.dominates(lk[0].block, c.block) for c in en + fl), "locked-before-encode-and-flush", fn=ap,
+                      detail="ConsoleAppender::append locks the writer once, before encode and flush")
+
+
 def run_cfg(ctx, p, cfg):
+    rule_console_stream_exclusive(ctx, p, cfg, "J7")
     if "rolling_file_appender" in p.meta.get("features", []):
         # sink-side premise of "one record, one line": the file the lines go to is reopened in append mode unless it was just
         # truncated, so a line is never written over lines that are kept (C05.R5 re-evaluated)
